@@ -74,6 +74,11 @@ def put (p : BsPool) (tag : Nat) (buf : Slice) (owner : Option Slice) : BsPool :
     let idx := putClass buf.cap
     { p with bags := fun i => if i = idx then ⟨tag, buf.alloc, buf.off⟩ :: p.bags idx else p.bags i }
 
+/-- the application allocates `n` bytes outside the pool (`make([]byte, n)`) -/
+def foreign (p : BsPool) (n : Nat) : BsPool × Slice :=
+  let s : Slice := ⟨p.allocs.length, 0, n, n⟩
+  ({ p with allocs := p.allocs ++ [n], out := s :: p.out }, s)
+
 /-- a collection may drop any stored pointers: keep those selected by `keep` -/
 def gc (p : BsPool) (keep : Stored → Bool) : BsPool := { p with bags := fun i => (p.bags i).filter keep }
 
